@@ -51,6 +51,39 @@ def _ckl_frame(tb):
     return best
 
 
+def _ast_hole(node, depth=0, seen=None):
+    """A program is a tree of nodes: a None in a list of child nodes or as
+    the body of a function is a hole, not a program."""
+    if seen is None:
+        seen = set()
+    if depth > 200 or id(node) in seen:
+        return None
+    seen.add(id(node))
+    cls = type(node).__name__
+    if not cls.startswith("Node"):
+        return None
+    for name, v in vars(node).items():
+        if cls == "NodeLambda" and name == "body" and v is None:
+            return "function without a body"
+        items = v if isinstance(v, (list, tuple)) else [v]
+        child_list = isinstance(v, (list, tuple)) and \
+            name in ("expressions", "items", "args", "statements")
+        for x in items:
+            if child_list and x is None:
+                return f"None among the {name} of a {cls}"
+            if isinstance(x, (list, tuple)):
+                for y in x:
+                    if type(y).__name__.startswith("Node"):
+                        h = _ast_hole(y, depth + 1, seen)
+                        if h:
+                            return h
+            elif type(x).__name__.startswith("Node"):
+                h = _ast_hole(x, depth + 1, seen)
+                if h:
+                    return h
+    return None
+
+
 def parse_outcome(text, budget=2.0):
     from ckl.parser import parse_script
     from ckl.errors import CklSyntaxError
@@ -67,6 +100,22 @@ def parse_outcome(text, budget=2.0):
                 node = parse_script(text, NAME)
             if not hasattr(node, "evaluate"):
                 return ("bad", "no-node", type(node).__name__)
+            hole = _ast_hole(node)
+            if hole:
+                return ("bad", "program-with-a-hole", hole)
+            try:
+                # the parse() built-in hands this text to programs
+                text_ = repr(node)
+                if not isinstance(text_, str):
+                    return ("bad", "program-renders-as-non-string",
+                            type(text_).__name__)
+            except CaseTimeout:
+                raise
+            except RecursionError:
+                pass          # depth is out of scope (see the statement)
+            except BaseException as e:
+                return ("host", type(e).__name__ + "-rendering-the-program",
+                        _ckl_frame(e.__traceback__), str(e)[:200])
             return ("program",)
         except CklSyntaxError as e:
             msg, pos = e.msg, e.pos
@@ -258,6 +307,59 @@ def part_grammar(part, n):
     part.note("parsed_as_program", stats["ok"])
 
 
+def special_texts(ch=None):
+    """Hand-picked families the random parts reach too rarely: literals at
+    the host's int <-> str limit, value-less returns in every tail position,
+    and every expression kind where only names are allowed."""
+    out = []
+    for n in (4299, 4300, 4301, 4302, 5000, 20000):
+        out += ["9" * n, "x = -" + "1" * n + ";", "1" * n + ".5",
+                "0." + "1" * n, "1_" + "0" * n, "[" + "7" * n + "]",
+                "'" + "a" * n + "'", "//" + "a" * n + "//", "a" * n]
+    for n in (3570, 3571, 3572, 3573, 4301):
+        out += ["0x" + "f" * n, "0x" + "0" * n + "1"]
+    for n in (14283, 14284, 14285, 14286):
+        out += ["0b" + "1" * n]
+    tails = ["return;", "1; return;", "fn() return;", "def f() return;",
+             "def f() do 1; return; end", "do return; end", "do 1; return; end",
+             "if TRUE then return;", "if TRUE then 1 else return;",
+             "for x in [1] do return; end", "while TRUE do return; end",
+             "def f() do do 1; return; end end", "(return;)", "[return;]",
+             "f(return;)", "return; return;", "return", "return 1; return;",
+             "do 1 catch all return; end", "do 1 finally return; end",
+             "<*m(self) return;*>", "def class C do def m(self) return; end",
+             "s('{return;}')", "break;", "1; break;", "fn() break;",
+             "continue;", "fn() do continue; end"]
+    out += tails
+    exprs = ["(for a in b c)", "fn() (for a in b c)", "do for a in b do end end",
+             "if a then (for a in b c)", "(while a do b end)", "x[1]", "x->y",
+             "x(1)", "1", "'s'", "//p//", "[a]", "<<a>>", "<<<a => 1>>>",
+             "<*a = 1*>", "fn(x) x", "a + b", "not a", "-a", "a is zero",
+             "a in b", "(a)", "do a end", "if a then b", "a !> f()", "...a",
+             "a = 1", "def a = 1", "def f() 1", "error a", "return a",
+             "break", "continue", "require M", "[a for a in b]", "a[1 to 2]",
+             "NULL", "TRUE", "a...", "a, b", "[a, b]", "checkerlang_x"]
+    for e in exprs:
+        out += [f"[{e}] = 1", f"def [{e}] = 1", f"[a, {e}] = [1, 2]",
+                f"for [{e}] in x do 1 end", f"for {e} in x do 1 end",
+                f"fn({e}) 1", f"def f({e}) 1", f"def {e} = 1",
+                f"[1 for {e} in x]", f"[1 for [{e}] in x]",
+                f"require M import [{e}]", f"require M as {e}",
+                f"<*{e} = 1*>", f"def class {e} do end",
+                f"f({e} = 1)", f"{e} = 1", f"{e} += 1",
+                f"do 1 catch {e} 2 end", f"x->{e}", f"x->{e} = 1"]
+    return out
+
+
+def part_special(part):
+    for text in special_texts():
+        f = _eval(part, text, "special")
+        part.distinct()
+        part.collect(f, {"kind": "parse", "source": "special",
+                         "text": text if len(text) < 300 else text})
+    part.exhaustive = True
+
+
 SEED_CORPUS = [
     "def f(x) x * 2; [f(1), f(2)]",
     "def m = <<<'a' => 1, 'b' => 2>>>; [k for k in keys m]",
@@ -332,7 +434,8 @@ def part_atheris(part, runs, use_seed_corpus):
 
 def parts(tier, seed):
     if tier == "quick":
-        ps = [("soup-%d" % i, part_soup, {"n": 2500}) for i in range(4)]
+        ps = [("special", part_special, {})]
+        ps += [("soup-%d" % i, part_soup, {"n": 2500}) for i in range(4)]
         ps += [("noise-%d" % i, part_noise, {"n": 2500}) for i in range(3)]
         ps += [("edits-%d" % i, part_edits, {"n": 2, "max_tokens": 30})
                for i in range(8)]
@@ -340,7 +443,8 @@ def parts(tier, seed):
         ps += [("atheris-%d" % i, part_atheris,
                 {"runs": 15000, "use_seed_corpus": i == 0}) for i in range(2)]
     else:
-        ps = [("soup-%d" % i, part_soup, {"n": 30000}) for i in range(4)]
+        ps = [("special", part_special, {})]
+        ps += [("soup-%d" % i, part_soup, {"n": 30000}) for i in range(4)]
         ps += [("noise-%d" % i, part_noise, {"n": 30000}) for i in range(3)]
         ps += [("edits-%d" % i, part_edits, {"n": 12, "max_tokens": 45})
                for i in range(16)]
